@@ -129,6 +129,7 @@ type Node struct {
 	GlobalCo  bool     // Coercer/CoerceTo describe the global conf.Coercers override in effect, not a WithCoercer option
 	ExtraStrs []string // further strings the oracle tables must cover (builder chains: every Default/Catch value)
 	HasDef   bool
+	ReqOver  bool // slices: Required() is called and then overridden by Optional() (Req == nil), or Optional() is called first and Required(...) after it (Req != nil): the last call decides
 	DefOver  bool // slices: an earlier Default call is overridden by the last one (Default(x).Default(final) or Default(x).Default(nil))
 	Catch    *Leaf
 	Tests    []TestSpec
